@@ -44,6 +44,9 @@ type Result struct {
 	Inconclusive []string          `json:"inconclusive"`
 	Notes        map[string]string `json:"notes,omitempty"`
 	Done         bool              `json:"done"`
+	// Partial marks a checkpoint written before a risky call: if it is what the supervisor
+	// finds, the worker died afterwards (its counters up to the checkpoint are still merged).
+	Partial bool `json:"partial"`
 }
 
 // W is the worker context handed to a property's Run.
@@ -252,9 +255,21 @@ func topFrame(stack string) (string, bool) {
 	return first, in
 }
 
+// Checkpoint writes what was observed so far, so that a fatal crash in the next call does
+// not lose it.
+func (w *W) Checkpoint() {
+	_ = w.write(true)
+}
+
 // Finish writes the shard result.
 func (w *W) Finish() error {
+	return w.write(false)
+}
+
+func (w *W) write(partial bool) error {
 	w.res.Done = true
+	w.res.Partial = partial
+	w.res.Violations = nil
 	sigs := make([]string, 0, len(w.viols))
 	for s := range w.viols {
 		sigs = append(sigs, s)
